@@ -75,6 +75,30 @@ class Instance:
         return f"{self.cls.name}({', '.join([repr(a) for a in self.args] + [f'{k}={v!r}' for k, v in self.kwargs.items()])})"
 
 
+class SymBytes:
+    """Octets that are only known as a concatenation of parts: literal bytes and ``bytes(<object>)`` encodings."""
+
+    def __init__(self, parts: List[Any]) -> None:
+        self.parts = parts
+
+    def __repr__(self) -> str:
+        return "bytes[" + " + ".join(repr(p) for p in self.parts) + "]"
+
+    @staticmethod
+    def of(val: Any) -> "SymBytes":
+        if isinstance(val, SymBytes):
+            return val
+        if isinstance(val, (bytes, bytearray)):
+            return SymBytes([bytes(val)] if val else [])
+        return SymBytes([val])
+
+    def __add__(self, other: Any) -> "SymBytes":
+        return SymBytes(self.parts + SymBytes.of(other).parts)
+
+    def __radd__(self, other: Any) -> "SymBytes":
+        return SymBytes(SymBytes.of(other).parts + self.parts)
+
+
 class Raised(Exception):
     def __init__(self, value: Any) -> None:
         super().__init__(repr(value))
@@ -107,8 +131,9 @@ BIN = {
 
 
 class MiniEval:
-    def __init__(self, ctx, construct: Optional[Callable[[ClassInfo, List[Any], Dict[str, Any]], Any]] = None, max_steps: int = 20000, run_init: bool = False) -> None:
+    def __init__(self, ctx, construct: Optional[Callable[[ClassInfo, List[Any], Dict[str, Any]], Any]] = None, max_steps: int = 20000, run_init: bool = False, externals: Optional[Dict[str, Callable[..., Any]]] = None) -> None:
         self.ctx = ctx
+        self.externals = externals or {}  # function key -> model (args, kwargs) -> value, for library calls such as x690.decode
         self.steps = 0
         self.max_steps = max_steps
         self.construct = construct
@@ -122,13 +147,15 @@ class MiniEval:
         kwargs = dict(kwargs or {})
         node = fn.node
         a = node.args  # type: ignore[attr-defined]
-        if a.vararg or a.kwarg:
-            raise Unevaluable(f"{fn.qualname}: *args / **kwargs")
+        if a.kwarg:
+            raise Unevaluable(f"{fn.qualname}: **kwargs")
         names = [x.arg for x in a.posonlyargs + a.args]
         env: Dict[str, Any] = {}
         for name, val in zip(names, args):
             env[name] = val
-        if len(args) > len(names):
+        if a.vararg:
+            env[a.vararg.arg] = tuple(args[len(names):])
+        elif len(args) > len(names):
             raise Unevaluable(f"{fn.qualname}: too many arguments")
         defaults = dict(zip(names[len(names) - len(a.defaults):], a.defaults))
         for kwa, d in zip(a.kwonlyargs, a.kw_defaults):
@@ -164,6 +191,8 @@ class MiniEval:
         if isinstance(tgt, ast.Name):
             env[tgt.id] = val
         elif isinstance(tgt, (ast.Tuple, ast.List)):
+            if isinstance(val, Instance) and "__items__" in val.attrs:
+                val = val.attrs["__items__"]
             vals = list(val) if isinstance(val, (tuple, list)) else None
             if vals is None or len(vals) != len(tgt.elts):
                 raise Unevaluable("unpacking")
@@ -299,12 +328,18 @@ class MiniEval:
     def truth(val: Any) -> bool:
         if isinstance(val, Sym):
             raise Unevaluable(f"truth value of {val}")
+        if isinstance(val, Instance) and "__items__" in val.attrs:
+            return bool(val.attrs["__items__"])
+        if isinstance(val, Instance) and "__truth__" in val.attrs:
+            return bool(val.attrs["__truth__"])
         if isinstance(val, (ClassRef, Instance, FuncRef)):
             return True
         return bool(val)
 
     @staticmethod
     def iterate(val: Any) -> List[Any]:
+        if isinstance(val, Instance) and "__items__" in val.attrs:
+            return list(val.attrs["__items__"])  # a modelled container object (x690 Sequence)
         if isinstance(val, (list, tuple, set, frozenset)):
             return list(val)
         if isinstance(val, dict):
@@ -315,6 +350,8 @@ class MiniEval:
 
     @staticmethod
     def apply_bin(op, a: Any, b: Any) -> Any:
+        if op is operator.add and (isinstance(a, SymBytes) or isinstance(b, SymBytes)) and all(isinstance(x, (SymBytes, bytes)) for x in (a, b)):
+            return SymBytes.of(a) + SymBytes.of(b)
         for x in (a, b):
             if isinstance(x, (Sym, ClassRef, Instance, FuncRef)):
                 raise Unevaluable("arithmetic on an opaque value")
@@ -415,10 +452,14 @@ class MiniEval:
                     return base[slice(lo, hi, st)]
                 raise Unevaluable("slice")
             key = self.eval(fn, expr.slice, env, depth)
+            if isinstance(base, Instance) and "__items__" in base.attrs:
+                base = base.attrs["__items__"]
             if isinstance(base, (dict, list, tuple, str, bytes)):
                 try:
                     return base[key]
-                except (KeyError, IndexError, TypeError) as exc:
+                except (KeyError, IndexError) as exc:
+                    raise Raised(Sym(type(exc).__name__)) from exc  # what the real code would raise
+                except TypeError as exc:
                     raise Unevaluable(f"subscript: {exc!r}") from exc
             raise Unevaluable("subscript of an opaque value")
         if isinstance(expr, ast.Attribute):
@@ -496,7 +537,7 @@ class MiniEval:
 
             try:
                 val = self.ctx.r.class_const(base.cls, expr.attr)
-                return val.value if isinstance(val, EnumMember) and hasattr(val, "value") else val
+                return val  # Enum members stay EnumMember objects (compared by class and name)
             except NotConstant:
                 pass
             meth = self.ctx.r.method(base.cls, expr.attr)
@@ -524,6 +565,8 @@ class MiniEval:
             raise Unevaluable(f"attribute {expr.attr} of {base.cls.name} instance")
         if isinstance(base, Sym):
             return Sym(f"{base.name}.{expr.attr}")
+        if isinstance(base, slice) and expr.attr in ("start", "stop", "step"):
+            return getattr(base, expr.attr)
         if isinstance(base, type) and base is int and expr.attr == "from_bytes":
             return ("builtin-method", int, "from_bytes")
         if isinstance(base, (dict, list, tuple, str, bytes, set, int)):
@@ -532,6 +575,8 @@ class MiniEval:
 
     def call(self, fn: FuncInfo, expr: ast.Call, env: Dict[str, Any], depth: int) -> Any:  # noqa: C901
         func = expr.func
+        if isinstance(func, ast.Name) and func.id == "cast" and len(expr.args) == 2 and "cast" not in env:
+            return self.eval(fn, expr.args[1], env, depth)
         args: List[Any] = []
         for a in expr.args:
             if isinstance(a, ast.Starred):
@@ -562,8 +607,10 @@ class MiniEval:
             name = func.id
             simple: Dict[str, Callable[..., Any]] = {
                 "len": len, "tuple": tuple, "list": list, "dict": dict, "set": set, "frozenset": frozenset, "sorted": sorted, "min": min, "max": max, "sum": sum,
-                "abs": abs, "int": int, "bool": bool, "str": str, "bytes": bytes, "range": range, "divmod": divmod, "pow": pow, "any": any, "all": all, "repr": repr,
+                "slice": slice, "abs": abs, "int": int, "bool": bool, "str": str, "bytes": bytes, "range": range, "divmod": divmod, "pow": pow, "any": any, "all": all, "repr": repr,
             }
+            if name == "cast" and len(args) == 2:
+                return args[1]  # typing.cast has no runtime effect
             if name == "reversed" and len(args) == 1:
                 return list(reversed(self.iterate(args[0])))
             if name == "enumerate":
@@ -594,6 +641,12 @@ class MiniEval:
                     raise
             if name in ("int", "bytes", "str") and not args:
                 return {"int": 0, "bytes": b"", "str": ""}[name]
+            if name == "bytes" and len(args) == 1 and isinstance(args[0], (Instance, Sym, SymBytes)):
+                return SymBytes.of(args[0]) if isinstance(args[0], SymBytes) else SymBytes([args[0]])  # the object's encoding, as a token
+            if name == "len" and len(args) == 1 and isinstance(args[0], SymBytes):
+                return Sym("length-of-encoding")
+            if name == "len" and len(args) == 1 and isinstance(args[0], Instance) and "__items__" in args[0].attrs:
+                return len(args[0].attrs["__items__"])
             if name in simple:
                 for x in args:
                     if isinstance(x, (Sym, Instance, ClassRef, FuncRef)):
@@ -610,6 +663,15 @@ class MiniEval:
             return None
         if isinstance(target, tuple) and len(target) == 3 and target[0] == "builtin-method":
             _, base, meth = target
+            if isinstance(base, bytes) and meth == "join" and len(args) == 1:
+                items = self.iterate(args[0])
+                if any(isinstance(i, SymBytes) for i in items):
+                    out = SymBytes([])
+                    for k, item in enumerate(items):
+                        if k and base:
+                            out = out + base
+                        out = out + item
+                    return out
             if base is int and meth == "from_bytes":
                 try:
                     return int.from_bytes(*args, **kwargs)
@@ -653,6 +715,8 @@ class MiniEval:
             return inst
         if isinstance(target, FuncRef):
             callee = target.fn
+            if callee.key in self.externals:
+                return self.externals[callee.key](args, kwargs)
             if callee.module.external and not callee.module.name.startswith("x690"):
                 raise Unevaluable(f"external function {callee.qualname}")
             decos = [ast.unparse(d).split("(")[0].split(".")[-1] for d in getattr(callee.node, "decorator_list", [])]
